@@ -2011,7 +2011,10 @@ fn main() {
 		 total_difficulty, secondary_scaling, nonce, edge_bits, proof, output/kernel mmr size), RE-MINED for the claimed difficulty when \
 		 the field is in the PoW pre-image so only the targeted rule is violated, and delivered to receivers that know exactly the \
 		 ancestors through process_block_header, sync_block_headers (single, and batch with the bad header at position k of n), \
-		 process_block, and (for context-free rules and now+FTL±2s) UntrustedBlockHeader::read. A case signature is (entry point, header \
+		 process_block, and (for context-free rules and now+FTL±2s) UntrustedBlockHeader::read; then again as fork candidates after the honest \
+		 header was accepted (and, for mutants that keep the proof and therefore the hash of the honest header, checking that the stored \
+		 header is not replaced). A wrong prev_root inside a batch is followed by a child that is perfect given its parent. Chains are \
+		 sharded over 16 worker processes. A case signature is (entry point, header \
 		 version era, field, mutation kind, outcome). Labelled-invalid mutants must be rejected and leave no trace; honest headers and \
 		 rule-abiding mutants (parent+1s, re-mined sibling, v5 secondary_scaling) must be accepted and stored; the claimed difficulty of \
 		 every honest header must equal the independent u128 reference. \
